@@ -250,3 +250,26 @@ Theorem c13_ids_echoed_are_literals : forall data : bytes,
   i = [] \/ i = null_bytes \/ is_str_lit i = true \/ is_num_lit i = true.
 Proof. exact ids_echoed_are_literals. Qed.
 Print Assumptions c13_ids_echoed_are_literals.
+
+(* -- bridge replies ------------------------------------------------------------------------------ *)
+
+(* jhttp marshalError: the reply to a statically invalid member *)
+Theorem c13_bridge_error_reply : forall (r : parsed_request) (e : werr) (b : bytes),
+  pr_error r = Some e -> (pr_id r = [] \/ id_rt' (pr_id r)) -> err_rt_at 1 e -> bridge_marshal_error r = Some b ->
+  Json.valid b = true /\
+  parse_member b = canon (bridge_err_msg r e) /\ parse_msgs b = InMsgs false [canon (bridge_err_msg r e)] /\
+  j_id (parse_member b) = (if beq (pr_id r) [] then null_bytes else pr_id r) /\
+  j_error (parse_member b) = j_error (canon (bridge_err_msg r e)) /\
+  (valid_utf8 (pr_id r) = true -> err_sendable e -> (forall c, In c b -> 32 <= c) /\ valid_utf8 b = true).
+Proof. exact bridge_error_reply. Qed.
+Print Assumptions c13_bridge_error_reply.
+
+(* ... for every member ParseRequests flags, whatever the input *)
+Theorem c13_bridge_error_reply_parsed : forall (data : bytes) (rs : list parsed_request) (r : parsed_request) (e : werr),
+  parse_requests data = Parsed rs -> In r rs -> pr_error r = Some e ->
+  exists b, bridge_marshal_error r = Some b /\ Json.valid b = true /\
+    parse_member b = canon (bridge_err_msg r e) /\ parse_msgs b = InMsgs false [canon (bridge_err_msg r e)] /\
+    j_id (parse_member b) = (if beq (pr_id r) [] then null_bytes else pr_id r) /\
+    (valid_utf8 (pr_id r) = true -> we_data e = [] -> (forall c, In c b -> 32 <= c) /\ valid_utf8 b = true).
+Proof. exact bridge_error_reply_parsed. Qed.
+Print Assumptions c13_bridge_error_reply_parsed.
